@@ -55,6 +55,10 @@ Theorem C04_chunking : forall (chunks : list (list N)) (fuel : nat),
     /\ sbuf s' = snd (prod_munch (concat chunks)).
 Proof. exact chunking. Qed.
 
+(* 3b. the linear evaluation function used by the case files is the specification *)
+Theorem C04_fast_decode : forall s : list N, prod_decode_fast s = fst (prod_decode s).
+Proof. exact fast_decode. Qed.
+
 (* 4. the literal key table (re-checked on the regenerated automaton): every self-delimiting
    sequence of the table decodes to the key the table names *)
 Theorem C04_key_table : forall (w rest : list N),
